@@ -298,6 +298,59 @@ def oracle_root(ctx, case, jcase, rng):
                         return
 
 
+def oracle_inherit(ctx):
+    """the settings for unknown and required fields reach a sub-document through every kind of child validator: the
+    enclosing validator's setting, unless the rule set of the mapping itself overrides it; a rule of the same name on an
+    enclosing *sequence* field says nothing about the mappings among its items"""
+    import itertools
+    from cerberus import Validator
+    inner_schema = {'a': {'type': 'integer'}, 'b': {'type': 'string'}}
+    inner_doc = {'a': 1, 'zz': 2}
+    tri = (None, False, True)
+    for kind in ('schema', 'list', 'items', 'values', 'anyof'):
+        outer_opts = tri if kind in ('list', 'items') else (None,)
+        for root_au, root_ra, outer_au, outer_ra, inner_au, inner_ra in itertools.product((False, True), (False, True), outer_opts,
+                                                                                           outer_opts, tri, tri):
+            schema, doc = wrap(kind, copy.deepcopy(inner_schema), copy.deepcopy(inner_doc))
+            mapping_rules = {'schema': schema['n'], 'list': schema['n'].get('schema'), 'items': (schema['n'].get('items') or [None])[0],
+                             'values': schema['n'].get('valuesrules'), 'anyof': (schema['n'].get('anyof') or [None])[0]}[kind]
+            if inner_au is not None:
+                mapping_rules['allow_unknown'] = inner_au
+            if inner_ra is not None:
+                mapping_rules['require_all'] = inner_ra
+            if outer_au is not None:
+                schema['n']['allow_unknown'] = outer_au
+            if outer_ra is not None:
+                schema['n']['require_all'] = outer_ra
+            eff_au = root_au if inner_au is None else inner_au
+            eff_ra = root_ra if inner_ra is None else inner_ra
+            try:
+                alone = Validator(copy.deepcopy(inner_schema), allow_unknown=eff_au, require_all=eff_ra)
+                want = (alone.validate(copy.deepcopy(inner_doc)), sorted(e.code for e in alone._errors))
+                v = Validator(copy.deepcopy(schema), allow_unknown=root_au, require_all=root_ra)
+                ok = v.validate(copy.deepcopy(doc))
+                leaves = []
+
+                def walk(errs):
+                    for e in errs:
+                        if e.is_group_error or e.is_logic_error:
+                            for c in (e.child_errors if e.is_group_error else [x for d in e.definitions_errors.values() for x in d]):
+                                walk([c])
+                        else:
+                            leaves.append(e.code)
+                walk(v._errors)
+                got = (ok, sorted(leaves) if kind != 'list' else sorted(leaves)[::2])
+            except Exception as e:
+                want, got = 'no exception', 'raised %s: %s' % (type(e).__name__, e)
+            ctx.dist('inherit_checks', kind)
+            if got != want:
+                ctx.fail('C10 oracle: a mapping below %s (root allow_unknown=%s require_all=%s, the sequence field says %s / %s, '
+                         'the mapping\'s own rule set says %s / %s) was validated as %r; alone under the effective settings: %r'
+                         % (kind, root_au, root_ra, outer_au, outer_ra, inner_au, inner_ra, got, want),
+                         {'schema': repr(schema), 'doc': repr(doc), 'kw': repr({'allow_unknown': root_au, 'require_all': root_ra})})
+                return
+
+
 def oracle_caret(ctx):
     """`^^name` is the escape for a field whose name starts with a caret: it is looked up in the *current* (sub-)document,
     whatever the outermost document holds — through every kind of child validator, depth 1..2"""
@@ -336,6 +389,7 @@ def run(ctx, n):
     with Driver() as drv:
         oracle_root(ctx, None, None, None)
         oracle_caret(ctx)
+        oracle_inherit(ctx)
         for i, prof, case, g in cases.stream(ctx.seed, n, profiles):
             if cases.accepted(case) is not True:
                 continue
